@@ -6,7 +6,7 @@ use crate::prng::Rng;
 use rusty_paseto::verif_hooks::{self, SimEnv};
 use serde_json::Value;
 use std::cell::RefCell;
-use std::collections::{BTreeMap, BTreeSet, VecDeque};
+use std::collections::{BTreeMap, BTreeSet};
 
 #[derive(Clone, Debug, PartialEq, Eq)]
 pub enum EntropyMode {
@@ -28,8 +28,9 @@ pub struct SimState {
     pub entropy_fail: BTreeSet<usize>,
     pub entropy_draws: Vec<EntropyDraw>,
     // ---- hash seeds
-    pub hash_seeds: VecDeque<u64>,
-    pub hash_fallback: u64,
+    /// every map the library creates while an object is constructed draws mix(hash_base, counter)
+    pub hash_base: u64,
+    pub hash_ctr: u64,
     pub hash_seeds_served: u64,
     // ---- validators
     pub validator_table: BTreeMap<usize, Behaviour>,
@@ -75,8 +76,8 @@ impl SimState {
             entropy_seed: 0,
             entropy_fail: BTreeSet::new(),
             entropy_draws: vec![],
-            hash_seeds: VecDeque::new(),
-            hash_fallback: 0,
+            hash_base: 0,
+            hash_ctr: 0,
             hash_seeds_served: 0,
             validator_table: BTreeMap::new(),
             validator_calls: vec![],
@@ -128,13 +129,9 @@ impl SimEnv for Forwarder {
     fn hash_seed(&mut self) -> u64 {
         with(|s| {
             s.hash_seeds_served += 1;
-            match s.hash_seeds.pop_front() {
-                Some(x) => x,
-                None => {
-                    s.hash_fallback = s.hash_fallback.wrapping_add(0x9e37_79b9_7f4a_7c15);
-                    s.hash_fallback
-                }
-            }
+            let x = crate::prng::mix(&[s.hash_base, s.hash_ctr, 0x4a5]);
+            s.hash_ctr += 1;
+            x
         })
     }
 }
@@ -174,12 +171,12 @@ pub fn take_entropy_draws() -> Vec<EntropyDraw> {
     with(|s| std::mem::take(&mut s.entropy_draws))
 }
 
-pub fn push_hash_seed(x: u64) {
-    with(|s| s.hash_seeds.push_back(x));
-}
-
-pub fn clear_hash_seeds() {
-    with(|s| s.hash_seeds.clear());
+/// All hash maps created by the library until the next call derive their seed from `x`.
+pub fn set_hash_base(x: u64) {
+    with(|s| {
+        s.hash_base = x;
+        s.hash_ctr = 0;
+    });
 }
 
 pub fn set_validators(table: BTreeMap<usize, Behaviour>) {
